@@ -47,6 +47,7 @@ def _solve(order, xg, init, targets, jit):
     c["inversion_method"] = "exact"
     c["interpolation_polynomial_degree"] = 3
     c["n_integration_cores"] = 1
+    runner.cheap_sibling(th, op)
     with runner.scratch() as root:
         eko.solve(runcards.TheoryCard.from_dict(th), runcards.OperatorCard.from_dict(op), root / "o.tar")
         with EKO.read(root / "o.tar") as e:
